@@ -10,42 +10,59 @@ Proof.
   rewrite zlen_cons. cbn [zsum]. lia.
 Qed.
 
-Lemma huff_build_never : forall bits l p nv, huff_build bits l p nv <> Err /\ huff_build bits l p nv <> OutOfFuel.
+Lemma huff_fill_never : forall bits l p cn nv, huff_fill bits l p cn nv <> Err /\ huff_fill bits l p cn nv <> OutOfFuel.
 Proof.
-  induction bits as [|n rest IH]; intros l p nv; cbn [huff_build]; [split; congruence|].
+  induction bits as [|n rest IH]; intros l p cn nv; cbn [huff_fill]; [split; congruence|].
   destruct (8 <=? l); [split; congruence|].
   destruct (n <=? 0); [apply IH|].
-  destruct ((nv <? p + n) || (256 <? (p + n) * 2 ^ (7 - l))); [split; congruence|apply IH].
+  destruct ((nv <? p + n) || (256 <? (cn + n) * 2 ^ (7 - l))); [split; congruence|apply IH].
 Qed.
 
-(* the proposed check implies that Build does not index out of range *)
-Lemma huff_ok_build : forall bits l p nv, bytes bits -> huff_ok bits l p = true -> p + zsum bits <= nv ->
-  huff_build bits l p nv <> Panic.
+(* the validation loop establishes exactly what the lookup fill needs:
+   cn + n <= 2^(l+1) at every length, and the value index stays below the validated total *)
+Lemma huff_validate_fill : forall bits l next total T nv, 0 <= l -> 0 <= next ->
+  huff_validate bits l next total = Some T -> T <= nv -> huff_fill bits l total next nv <> Panic /\ total <= T.
 Proof.
-  induction bits as [|n rest IH]; intros l p nv Hb Hok Hs; cbn [huff_build huff_ok zsum] in *; [congruence|].
-  inversion Hb as [|? ? Hn Hrest]; subst.
-  destruct (8 <=? l); [congruence|].
-  apply andb_true_iff in Hok. destruct Hok as [H1 H2].
-  pose proof (zsum_nonneg rest Hrest).
-  destruct (Z.leb_spec n 0).
-  - assert (n = 0) by lia. subst n. rewrite Z.max_l in H2 by lia. rewrite Z.add_0_r in H2. apply IH; auto; lia.
-  - destruct (Z.ltb_spec 0 n); [|lia]. apply Z.leb_le in H1.
-    destruct (Z.ltb_spec nv (p + n)); [lia|]. destruct (Z.ltb_spec 256 ((p + n) * 2 ^ (7 - l))); [lia|].
-    cbn [orb]. rewrite Z.max_r in H2 by lia. apply IH; auto; lia.
+  induction bits as [|n rest IH]; intros l next total T nv Hl Hn Hv HT; cbn [huff_validate huff_fill] in *.
+  - inversion Hv; subst. split; [congruence|lia].
+  - destruct (Z.ltb_spec n 0); [discriminate|].
+    destruct (Z.ltb_spec (2 ^ (l + 1)) (next + n)); [discriminate|].
+    destruct (IH (l + 1) (2 * (next + n)) (total + n) T nv ltac:(lia) ltac:(lia) Hv HT) as [A B].
+    split; [|lia].
+    destruct (8 <=? l) eqn:E8; [congruence|]. apply Z.leb_gt in E8.
+    destruct (Z.leb_spec n 0).
+    + assert (n = 0) by lia. subst n. rewrite !Z.add_0_r in A. exact A.
+    + destruct (Z.ltb_spec nv (total + n)); [lia|].
+      assert (Hp : 2 ^ (l + 1) * 2 ^ (7 - l) = 256).
+      { rewrite <- Z.pow_add_r by lia. replace (l + 1 + (7 - l)) with 8 by lia. reflexivity. }
+      assert (0 < 2 ^ (7 - l)) by (apply Z.pow_pos_nonneg; lia).
+      destruct (Z.ltb_spec 256 ((next + n) * 2 ^ (7 - l))); [nia|]. cbn [orb]. exact A.
 Qed.
 
-(* as the code stands: BITS = 3,0,...,0 with three values *)
-Lemma huff_build_panics : huff_build [3;0;0;0;0;0;0;0;0;0;0;0;0;0;0;0] 0 0 3 = Panic.
-Proof. vm_compute. reflexivity. Qed.
+(* F37: Build never indexes out of range, for any BITS / Values (before the fix BITS = 3,0,...
+   with three values panicked with index 256) *)
+Lemma huff_build_np : forall bits nv, huff_build bits nv <> Panic.
+Proof.
+  intros bits nv. unfold huff_build.
+  destruct (huff_validate bits 0 0 0) as [T|] eqn:E; [|congruence].
+  destruct (Z.ltb_spec nv T); [congruence|].
+  apply (huff_validate_fill bits 0 0 0 T nv); auto; lia.
+Qed.
+Lemma huff_build_nf : forall bits nv, huff_build bits nv <> OutOfFuel.
+Proof.
+  intros bits nv. unfold huff_build.
+  destruct (huff_validate bits 0 0 0) as [T|]; [|congruence].
+  destruct (nv <? T); [congruence|]. apply huff_fill_never.
+Qed.
 
 (* ---------- DHT ---------- *)
 Lemma firstn_zlen_le : forall {A} n (l : list A), zlen (firstn n l) <= Z.of_nat n.
 Proof. intros. unfold zlen. rewrite firstn_length. lia. Qed.
 
-Lemma dht_tables_good : forall g fuel data dc ac, bytes data -> (length data < fuel)%nat ->
-  good g 65536 (fun _ => True) (dht_tables g fuel data dc ac).
+Lemma dht_tables_good : forall fuel data dc ac, bytes data -> (length data < fuel)%nat ->
+  good true 65536 (fun _ => True) (dht_tables fuel data dc ac).
 Proof.
-  intros g fuel. induction fuel as [|k IH]; intros data dc ac Hb Hf; [lia|].
+  induction fuel as [|k IH]; intros data dc ac Hb Hf; [lia|].
   cbn [dht_tables]. destruct data as [|tcth r]; [apply good_ret; exact I|].
   inversion Hb as [|? ? Ht Hr]; subst.
   destruct (4 <=? tcth mod 16); [apply good_err|].
@@ -57,95 +74,117 @@ Proof.
   pose proof (firstn_zlen_le 16 r) as Hl16. fold bits in Hl16. change (Z.of_nat 16) with 16 in Hl16.
   destruct (Z.ltb_spec (zlen r2) (zsum bits)); [apply good_err|].
   eapply good_bind; [apply good_alloc with (post := fun _ => True); [lia|rewrite maxAlloc_val; lia|lia|exact I]|]. intros _ _.
-  destruct (g && negb (huff_ok bits 0 0)) eqn:Eg; [apply good_err|].
   eapply good_bind.
-  { apply good_lift_any with (post := fun _ => True).
-    - apply huff_build_never.
-    - intros ->. cbn [andb] in Eg. apply negb_false_iff in Eg. apply huff_ok_build; auto. lia.
-    - auto. }
+  { apply good_lift_any with (post := fun _ => True); [apply huff_build_nf|intros _; apply huff_build_np|auto]. }
   intros _ _. apply IH; [apply bytes_skipn; auto|].
   rewrite skipn_length. unfold r2. rewrite skipn_length. simpl in Hf. lia.
 Qed.
 
-Lemma parse_dht_good : forall g bs dc ac, bytes bs ->
-  good g 65536 (fun x => bytes (snd x) /\ (length (snd x) <= length bs)%nat) (parse_dht g bs dc ac).
+Lemma parse_dht_good : forall bs dc ac, bytes bs ->
+  good true 65536 (fun x => bytes (snd x) /\ (length (snd x) <= length bs)%nat /\ snd x = seg_rest bs) (parse_dht bs dc ac).
 Proof.
-  intros g bs dc ac Hb. unfold parse_dht.
+  intros bs dc ac Hb. unfold parse_dht.
   eapply good_bind.
-  { eapply good_weaken; [apply good_read_segment; exact Hb|lia|intros a Ha; exact Ha]. }
-  intros [d rest] (Hd & Hrest & Hdl & Hlen). cbn [fst snd] in *.
+  { eapply good_weaken; [apply good_read_segment'; exact Hb|lia|intros a Ha; exact Ha]. }
+  intros [d rest] (Hd & Hrest & Hdl & Hlen & Ed & Er). cbn [fst snd] in *.
   eapply good_bind; [apply dht_tables_good; [exact Hd|lia]|]. intros t _.
   apply good_ret. cbn [snd]. auto.
 Qed.
 
 (* ---------- state invariant ---------- *)
 Definition JInv (st : jst) : Prop :=
-  0 <= j_w st <= 65535 /\ 0 <= j_h st <= 65535 /\ 0 <= j_c st <= 3 /\ 0 <= j_prec st <= 16 /\ zlen (j_ids st) <= 3.
-Lemma JInv0 : JInv jst0. Proof. unfold JInv, jst0, zlen; simpl; lia. Qed.
-Definition jpost (bs : list Z) (x : jst * list Z) : Prop :=
-  JInv (fst x) /\ bytes (snd x) /\ (length (snd x) <= length bs)%nat.
+  0 <= j_w st <= 65535 /\ 0 <= j_h st <= 65535 /\ 0 <= j_c st <= 3 /\ 0 <= j_prec st <= 16 /\ zlen (j_ids st) <= j_c st /\
+  ((j_w st =? 0) && (j_h st =? 0) = true -> j_ids st = []).
+Lemma JInv0 : JInv jst0. Proof. unfold JInv, jst0, zlen; simpl. repeat split; try lia. Qed.
+Definition jframeless (st : jst) : bool := (j_w st =? 0) && (j_h st =? 0).
+Definition jframeS (st : jst) : Z := j_w st * j_h st * j_c st.
+Lemma jframeless_S : forall st, jframeless st = true -> jframeS st = 0.
+Proof. intros st H. unfold jframeless in H. apply andb_true_iff in H. destruct H as [H _]. apply Z.eqb_eq in H. unfold jframeS. rewrite H. lia. Qed.
+Definition jpostR (r : list Z) (x : jst * list Z) : Prop :=
+  JInv (fst x) /\ bytes (snd x) /\ (length (snd x) <= length r)%nat /\ snd x = seg_rest r.
 
 Lemma be16j_bound : forall d o, bytes d -> 0 <= be16j d o <= 65535.
 Proof. intros. unfold be16j. pose proof (bytes_znth d o H). pose proof (bytes_znth d (o + 1) H). lia. Qed.
 
-Definition S_jhdr (x : jhdr) : Z := let '(w, h, c, _) := x in w * h * c.
+Ltac rseg Hb B := eapply good_bind; [eapply good_weaken; [apply good_read_segment'; exact Hb|B|intros a Ha; exact Ha]|].
 
-(* ---------- jpeg/lossless ---------- *)
-Lemma jll_sof3_good : forall g st bs, bytes bs -> JInv st -> good g 65536 (jpost bs) (jll_parse_sof3 st bs).
+Lemma frame_S_nonneg : forall m fuel bs, bytes bs -> 0 <= frame_S m fuel bs.
 Proof.
-  intros g st bs Hb (I1 & I2 & I3 & I4 & I5). unfold jll_parse_sof3.
-  eapply good_bind.
-  { eapply good_weaken; [apply good_read_segment; exact Hb|lia|intros a Ha; exact Ha]. }
-  intros [d rest] (Hd & Hrest & Hdl & Hlen). cbn [fst snd] in *.
-  destruct (zlen d <? 6); [apply good_err|].
-  destruct ((znth d 0 0 <? 2) || (16 <? znth d 0 0)) eqn:Ep; [apply good_err|].
-  pose proof (be16j_bound d 1 Hd). pose proof (be16j_bound d 3 Hd).
-  destruct ((be16j d 3 <=? 0) || (be16j d 1 <=? 0)); [apply good_err|].
-  destruct (negb ((znth d 5 0 =? 1) || (znth d 5 0 =? 3))) eqn:Ec; [apply good_err|].
-  assert (Hc : 0 <= znth d 5 0 <= 3).
-  { apply negb_false_iff in Ec. apply orb_true_iff in Ec. destruct Ec as [E|E]; apply Z.eqb_eq in E; lia. }
-  apply orb_false_iff in Ep. destruct Ep as [E1 E2]. apply Z.ltb_ge in E1. apply Z.ltb_ge in E2.
-  apply good_ret. unfold jpost, JInv; simpl. repeat split; auto; lia.
+  intros m fuel. induction fuel as [|k IH]; intros bs Hb; cbn [frame_S]; [lia|].
+  destruct (read_marker bs) as [[mk r]| | |] eqn:EM; try lia.
+  destruct (read_marker_ok _ _ _ EM) as [_ Hbb]. destruct (Hbb Hb) as [Hr _].
+  destruct (mk =? m).
+  { apply sof_S_nonneg. unfold seg_data. destruct r as [|a [|b r']]; try constructor.
+    inversion Hr as [|? ? ? Hr']; subst. inversion Hr'; subst. apply bytes_firstn; auto. }
+  destruct ((mk =? 218) || (mk =? 217)); [lia|].
+  destruct (has_length mk); [|apply IH; auto].
+  apply IH. unfold seg_rest. destruct r as [|a [|b r']]; try constructor.
+  inversion Hr as [|? ? ? Hr']; subst. inversion Hr'; subst. apply bytes_skipn; auto.
 Qed.
 
-Lemma jll_selectors_good : forall g data k comp, 0 <= comp -> 2 + (comp + Z.of_nat k) * 2 <= zlen data + 1 ->
-  good g 65536 (fun _ => True) (jll_selectors data k comp).
+(* ---------- jpeg/lossless ---------- *)
+Lemma jll_sof3_good : forall st bs, bytes bs -> JInv st ->
+  good true 65536 (fun x => jpostR bs x /\ jframeless st = true /\ jframeless (fst x) = false /\ jframeS (fst x) = sof_S (seg_data bs))
+       (jll_parse_sof3 st bs).
 Proof.
-  intros g data k. induction k as [|k IH]; intros comp Hc Hl; cbn [jll_selectors]; [apply good_ret; exact I|].
+  intros st bs Hb (I1 & I2 & I3 & I4 & I5 & I6). unfold jll_parse_sof3. rseg Hb lia.
+  intros [d rest] (Hd & Hrest & Hdl & Hlen & Ed & Er). cbn [fst snd] in *.
+  destruct (zlen d <? 6) eqn:E6; [apply good_err|].
+  destruct (negb (j_w st =? 0) || negb (j_h st =? 0)) eqn:Efr; [apply good_err|].
+  destruct ((znth d 0 0 <? 2) || (16 <? znth d 0 0)) eqn:Ep; [apply good_err|].
+  pose proof (be16j_bound d 1 Hd). pose proof (be16j_bound d 3 Hd).
+  destruct ((be16j d 3 <=? 0) || (be16j d 1 <=? 0)) eqn:Ewh; [apply good_err|].
+  destruct (negb ((znth d 5 0 =? 1) || (znth d 5 0 =? 3))) eqn:Ec; [apply good_err|].
+  assert (Hc : 1 <= znth d 5 0 <= 3).
+  { apply negb_false_iff in Ec. apply orb_true_iff in Ec. destruct Ec as [E|E]; apply Z.eqb_eq in E; lia. }
+  apply orb_false_iff in Ep. destruct Ep as [E1 E2]. apply Z.ltb_ge in E1. apply Z.ltb_ge in E2.
+  apply orb_false_iff in Ewh. destruct Ewh as [W1 W2]. apply Z.leb_gt in W1. apply Z.leb_gt in W2.
+  apply orb_false_iff in Efr. destruct Efr as [F1 F2]. apply negb_false_iff in F1. apply negb_false_iff in F2.
+  assert (Hids : j_ids st = []) by (apply I6; rewrite F1, F2; reflexivity).
+  apply good_ret. unfold jpostR, JInv, jframeless, jframeS; cbn [fst snd j_w j_h j_c j_prec j_ids].
+  split.
+  { rewrite Hids. unfold zlen; simpl. repeat split; auto; try lia;
+    try (destruct (Z.eqb_spec (be16j d 3) 0); [lia|]; cbn [andb]; discriminate). }
+  split; [rewrite F1, F2; reflexivity|]. split.
+  { destruct (Z.eqb_spec (be16j d 3) 0); [lia|]. reflexivity. }
+  rewrite <- Ed. unfold sof_S, be16j. rewrite E6. reflexivity.
+Qed.
+
+Lemma jll_selectors_good : forall data k comp, 0 <= comp -> 2 + (comp + Z.of_nat k) * 2 <= zlen data + 1 ->
+  good true 65536 (fun _ => True) (jll_selectors data k comp).
+Proof.
+  intros data k. induction k as [|k IH]; intros comp Hc Hl; cbn [jll_selectors]; [apply good_ret; exact I|].
   eapply good_bind; [apply good_idx; lia|]. intros v _.
   destruct (4 <=? v / 16); [apply good_err|]. apply IH; lia.
 Qed.
 
-Lemma jll_sos_good : forall g st bs, bytes bs -> JInv st ->
-  good g 65536 (fun x => fst x = st /\ jpost bs x) (jll_parse_sos st bs).
+Lemma jll_sos_good : forall st bs, bytes bs -> JInv st ->
+  good true 65536 (fun x => fst x = st /\ jpostR bs x) (jll_parse_sos st bs).
 Proof.
-  intros g st bs Hb HI. pose proof HI as (I1 & I2 & I3 & I4 & I5). unfold jll_parse_sos.
-  eapply good_bind.
-  { eapply good_weaken; [apply good_read_segment; exact Hb|lia|intros a Ha; exact Ha]. }
-  intros [d rest] (Hd & Hrest & Hdl & Hlen). cbn [fst snd] in *.
+  intros st bs Hb HI. pose proof HI as (I1 & I2 & I3 & I4 & I5 & I6). unfold jll_parse_sos. rseg Hb lia.
+  intros [d rest] (Hd & Hrest & Hdl & Hlen & Ed & Er). cbn [fst snd] in *.
   destruct (Z.ltb_spec (zlen d) (1 + j_c st * 2 + 3)); [apply good_err|].
   eapply good_bind; [apply good_idx; lia|]. intros n _.
   destruct (negb (n =? j_c st)); [apply good_err|].
   eapply good_bind; [apply good_idx; lia|]. intros pr _.
   destruct ((pr <? 1) || (7 <? pr)); [apply good_err|].
   eapply good_bind; [apply jll_selectors_good; lia|]. intros _ _.
-  apply good_ret. unfold jpost; cbn [fst snd]. auto.
+  apply good_ret. unfold jpostR; cbn [fst snd]. auto.
 Qed.
 
 Lemma prec_bps : forall p, 0 <= p <= 16 -> 0 <= (p + 7) / 8 <= 2.
 Proof. intros. split; [apply Z.div_pos; lia|]. assert ((p + 7) / 8 < 3) by (apply Z.div_lt_upper_bound; lia). lia. Qed.
 
-Lemma jll_scan_allocs_good : forall g st rest, JInv st ->
-  good g (8 * Z.max 0 (j_w st * j_h st * j_c st) + 2 * zlen rest + 65536) (fun _ => True) (jll_scan_allocs st rest).
+Lemma jll_scan_allocs_good : forall st rest, JInv st ->
+  good true (8 * (j_w st * j_h st * j_c st) + 2 * zlen rest + 65536) (fun _ => True) (jll_scan_allocs st rest).
 Proof.
-  intros g st rest (I1 & I2 & I3 & I4 & I5). unfold jll_scan_allocs.
+  intros st rest (I1 & I2 & I3 & I4 & I5 & I6). unfold jll_scan_allocs.
   pose proof (zlen_nonneg rest).
   assert (Hwh : 0 <= j_w st * j_h st <= 65535 * 65535)
     by (split; [apply Z.mul_nonneg_nonneg; lia | apply Z.mul_le_mono_nonneg; lia]).
   assert (Hwhc : 0 <= j_w st * j_h st * j_c st <= 65535 * 65535 * 3)
     by (split; [apply Z.mul_nonneg_nonneg; lia | apply Z.mul_le_mono_nonneg; lia]).
   pose proof (prec_bps (j_prec st) I4) as Hbps.
-  rewrite Z.max_r by lia.
   eapply good_bind; [apply good_note with (post := fun _ => True); [lia|exact I]|]. intros _ _.
   eapply good_bind; [apply good_alloc with (post := fun _ => True); [lia|rewrite maxAlloc_val; lia|lia|exact I]|]. intros _ _.
   eapply good_bind with (pa := fun _ => True).
@@ -163,109 +202,86 @@ Proof.
   apply good_alloc; [lia|rewrite maxAlloc_val; lia|lia|exact I].
 Qed.
 
-Lemma jll_scan_allocs_noerr : forall st rest, fst (jll_scan_allocs st rest) <> Err.
+Lemma jll_loop_good : forall fuel st bs Sx, bytes bs -> JInv st -> (length bs < fuel)%nat -> 0 <= Sx ->
+  (jframeless st = true -> frame_S 195 fuel bs <= Sx) -> (jframeless st = false -> jframeS st <= Sx) ->
+  aloopP Sx 8 bs (jll_loop fuel st bs).
 Proof.
-  intros. unfold jll_scan_allocs, note_alloc, alloc, bind, ret.
-  repeat match goal with |- context [if ?b then _ else _] => destruct b; cbn [fst snd] end; congruence.
-Qed.
-
-Lemma jll_loop_good : forall g fuel st bs, bytes bs -> JInv st -> (length bs < fuel)%nat ->
-  gloopP S_jhdr 8 g bs (jll_loop g fuel st bs).
-Proof.
-  intros g fuel. induction fuel as [|k IH]; intros st bs Hb HI Hf; [lia|].
-  cbn [jll_loop].
-  destruct (read_marker bs) as [[m r]| | |] eqn:EM; try apply gloopP_err.
+  induction fuel as [|k IH]; intros st bs Sx Hb HI Hf HS H1 H2; [lia|].
+  assert (HfS : jframeS st <= Sx).
+  { destruct (jframeless st) eqn:E; [rewrite (jframeless_S st E); exact HS|apply H2; reflexivity]. }
+  cbn [jll_loop]. cbn [frame_S] in H1.
+  destruct (read_marker bs) as [[m r]| | |] eqn:EM; try apply aloopP_err.
   destruct (read_marker_ok _ _ _ EM) as [Hl Hbb]. destruct (Hbb Hb) as [Hr Hm].
   assert (Hzl : zlen r <= zlen bs) by (unfold zlen; lia).
-  destruct (m =? 195).
-  { eapply gloopP_bind; [lia|apply jll_sof3_good; auto|].
-    intros [st' rest] (P1 & P2 & P3). cbn [fst snd] in *.
-    apply gloopP_mono with (bs' := rest); [unfold zlen; lia|]. apply IH; auto. lia. }
-  destruct (m =? 196).
-  { eapply gloopP_bind; [lia|apply parse_dht_good; auto|].
-    intros [[dc ac] rest] (P2 & P3). cbn [fst snd] in *.
-    apply gloopP_mono with (bs' := rest); [unfold zlen; lia|]. apply IH; [exact P2| |lia].
-    destruct HI as (I1 & I2 & I3 & I4 & I5). unfold JInv; simpl. auto. }
-  destruct (m =? 218).
-  { eapply gloopP_bind; [lia|apply jll_sos_good; auto|].
-    intros [st' rest] (E & P1 & P2 & P3). cbn [fst snd] in *. subst st'.
-    apply gloopP_final; [|apply jll_scan_allocs_noerr].
-    intros g'. eapply good_weaken; [apply jll_scan_allocs_good; exact P1| |auto].
-    unfold S_jhdr. assert (zlen rest <= zlen bs) by (unfold zlen; lia). lia. }
-  destruct (m =? 217); [apply gloopP_err|].
-  destruct (has_length m).
-  { eapply gloopP_bind; [lia|apply good_weaken with (B := 65533) (p := fun x => bytes (fst x) /\ bytes (snd x) /\ zlen (fst x) <= 65533 /\ (length (snd x) <= length r)%nat) (p' := fun x => bytes (snd x) /\ (length (snd x) <= length r)%nat);
-      [apply good_read_segment; exact Hr|lia|tauto]|].
-    intros [d rest] (P2 & P3). cbn [fst snd] in *.
-    apply gloopP_mono with (bs' := rest); [unfold zlen; lia|]. apply IH; auto. lia. }
-  apply gloopP_mono with (bs' := r); [exact Hzl|]. apply IH; auto. lia.
+  pose proof (zlen_nonneg bs) as Hz0.
+  destruct (m =? 195) eqn:E195.
+  { eapply aloopP_bind; [apply jll_sof3_good; auto|nia|].
+    intros [st' rest] ((P1 & P2 & P3 & P4) & F0 & F1 & F2). cbn [fst snd] in *.
+    eapply aloopP_mono with (S' := Sx) (bs' := rest); [lia|lia|unfold zlen; lia|].
+    apply IH; auto; [lia| |].
+    - intros C. rewrite F1 in C. discriminate.
+    - intros _. rewrite F2. apply H1. exact F0. }
+  destruct (m =? 196) eqn:E196.
+  { eapply aloopP_bind; [apply parse_dht_good; auto|nia|].
+    intros [[dc ac] rest] (P2 & P3 & P4). cbn [fst snd] in *.
+    eapply aloopP_mono with (S' := Sx) (bs' := rest); [lia|lia|unfold zlen; lia|].
+    apply IH; [exact P2| |lia|exact HS| |].
+    - destruct HI as (I1 & I2 & I3 & I4 & I5 & I6). unfold JInv; cbn [j_w j_h j_c j_prec j_ids]. tauto.
+    - unfold jframeless; cbn [j_w j_h]. intros C. rewrite P4.
+      apply Z.eqb_eq in E196. subst m. cbn in H1. apply H1. exact C.
+    - unfold jframeless, jframeS; cbn [j_w j_h j_c]. exact H2. }
+  destruct (m =? 218) eqn:E218.
+  { eapply aloopP_bind; [apply jll_sos_good; auto|nia|].
+    intros [st' rest] (E & P1 & P2 & P3 & P4). cbn [fst snd] in *. subst st'.
+    eapply aloopP_bind; [apply jll_scan_allocs_good; exact P1| |intros _ _; apply aloopP_ret].
+    unfold jframeS in HfS. assert (zlen rest <= zlen bs) by (unfold zlen; lia). lia. }
+  destruct (m =? 217) eqn:E217; [apply aloopP_err|].
+  cbn [orb] in H1.
+  destruct (has_length m) eqn:EL.
+  { eapply aloopP_bind; [eapply good_weaken; [apply good_read_segment'; exact Hr|apply Z.le_refl|intros a Ha; exact Ha]|nia|].
+    intros [d rest] (P1 & P2 & P3 & P4 & P5 & P6). cbn [fst snd] in *.
+    eapply aloopP_mono with (S' := Sx) (bs' := rest); [lia|lia|unfold zlen; lia|].
+    apply IH; auto; [lia|]. intros C. rewrite P6. apply H1. exact C. }
+  eapply aloopP_mono with (S' := Sx) (bs' := r); [lia|lia|exact Hzl|].
+  apply IH; auto. lia.
 Qed.
 
-Lemma jll_decode_gloopP : forall g bs, bytes bs -> gloopP S_jhdr 8 g bs (jll_decode g (fuel_of bs) bs).
+Lemma jll_decode_aloopP : forall bs, bytes bs -> aloopP (frame_declared 195 bs) 8 bs (jll_decode (fuel_of bs) bs).
 Proof.
-  intros g bs Hb. unfold jll_decode.
-  destruct (read_marker bs) as [[m r]| | |] eqn:EM; try apply gloopP_err.
+  intros bs Hb. unfold jll_decode, frame_declared.
+  destruct (read_marker bs) as [[m r]| | |] eqn:EM; try apply aloopP_err.
   destruct (read_marker_ok _ _ _ EM) as [Hl Hbb]. destruct (Hbb Hb) as [Hr Hm].
-  destruct (m =? 216); [|apply gloopP_err].
-  apply gloopP_mono with (bs' := r); [unfold zlen; lia|].
-  apply jll_loop_good; auto; [apply JInv0|unfold fuel_of; lia].
+  destruct (m =? 216); [|apply aloopP_err].
+  eapply aloopP_mono with (S' := frame_S 195 (fuel_of bs) r) (bs' := r); [lia|lia|unfold zlen; lia|].
+  apply jll_loop_good; auto.
+  - apply JInv0.
+  - unfold fuel_of; lia.
+  - apply frame_S_nonneg; auto.
+  - intros _. lia.
+  - intros C. discriminate.
 Qed.
 
-(* with Build validating its table (huff_ok) the JPEG lossless header path never panics *)
-Theorem jll_decode_no_panic : forall bs, bytes bs -> fst (jll_decode true (fuel_of bs) bs) <> Panic.
-Proof. intros bs Hb. apply (jll_decode_gloopP true bs Hb). reflexivity. Qed.
-
-(* as the code stands: SOI, DHT with BITS[0] = 3 and three values *)
-Definition jll_panic_witness : list Z :=
-  [255; 216; 255; 196; 0; 22; 0; 3;0;0;0;0;0;0;0;0;0;0;0;0;0;0;0; 0; 1; 2].
-Theorem jll_decode_panics_refuted : exists bs, bytes bs /\ fst (jll_decode false (fuel_of bs) bs) = Panic.
-Proof.
-  exists jll_panic_witness. split; [|vm_compute; reflexivity].
-  unfold bytes, jll_panic_witness. repeat constructor; lia.
-Qed.
-
-Theorem jll_decode_fuel : forall g bs, bytes bs -> fst (jll_decode g (fuel_of bs) bs) <> OutOfFuel.
-Proof. intros g bs Hb. apply (jll_decode_gloopP g bs Hb). Qed.
-
-Theorem jll_decode_alloc : forall g bs, bytes bs ->
-  Forall (fun a => a <= 8 * Sres S_jhdr (fst (jll_decode g (fuel_of bs) bs)) + 2 * zlen bs + 65536)
-         (snd (jll_decode g (fuel_of bs) bs)).
-Proof.
-  intros g bs Hb. destruct (jll_decode_gloopP g bs Hb) as (_ & _ & H).
-  unfold bounded in H. eapply Forall_impl; [|exact H]. cbv beta; intros; lia.
-Qed.
-
-(* the check is conservative: same result or an error *)
-Theorem dht_check_conservative : forall fuel data dc ac,
-  dht_tables true fuel data dc ac = dht_tables false fuel data dc ac \/ fst (dht_tables true fuel data dc ac) = Err.
-Proof.
-  induction fuel as [|k IH]; intros data dc ac; cbn [dht_tables]; auto.
-  destruct data as [|tcth r]; auto.
-  destruct (4 <=? tcth mod 16); auto.
-  destruct (zlen r <? 16); auto.
-  destruct (zlen (skipn 16 r) <? zsum (firstn 16 r)); auto.
-  destruct (alloc (zsum (firstn 16 r)) 1) as [[[]| | |] la]; unfold bind; cbn [fst snd]; auto.
-  destruct (huff_ok (firstn 16 r) 0 0); cbn [andb negb]; auto.
-  destruct (lift (huff_build (firstn 16 r) 0 0 (zsum (firstn 16 r)))) as [[p| | |] lb]; cbn [fst snd]; auto.
-  match goal with |- context [dht_tables true k ?d ?x ?y] => destruct (IH d x y) as [E|E] end.
-  - left. rewrite E. reflexivity.
-  - right. exact E.
-Qed.
+(* F37 (Build validates), F44 (second SOF3 rejected): for every byte string *)
+Theorem jll_decode_no_panic : forall bs, bytes bs -> fst (jll_decode (fuel_of bs) bs) <> Panic.
+Proof. intros bs Hb. apply (jll_decode_aloopP bs Hb). Qed.
+Theorem jll_decode_fuel : forall bs, bytes bs -> fst (jll_decode (fuel_of bs) bs) <> OutOfFuel.
+Proof. intros bs Hb. apply (jll_decode_aloopP bs Hb). Qed.
+Theorem jll_decode_alloc : forall bs, bytes bs ->
+  Forall (fun a => a <= 8 * frame_declared 195 bs + 2 * zlen bs + 65536) (snd (jll_decode (fuel_of bs) bs)).
+Proof. intros bs Hb. apply (jll_decode_aloopP bs Hb). Qed.
 
 (* ---------- jpeg/lossless14sv1 ---------- *)
-Definition BIG : Z := 8 * (65535 * 65535) + 65536.
-
-Lemma sv1_comps_good : forall g data k i w h ids, 0 <= i -> 6 + (i + Z.of_nat k) * 3 <= zlen data ->
+Lemma sv1_comps_good : forall data k i w h ids, 0 <= i -> 6 + (i + Z.of_nat k) * 3 <= zlen data ->
   0 <= w <= 65535 -> 0 <= h <= 65535 -> zlen ids = i ->
-  good g BIG (fun ids' => zlen ids' = i + Z.of_nat k) (sv1_comps data k i w h ids).
+  good true (8 * (w * h) + 65536) (fun ids' => zlen ids' = i + Z.of_nat k) (sv1_comps data k i w h ids).
 Proof.
-  intros g data k. induction k as [|k IH]; intros i w h ids Hi Hl Hw Hh Hids; cbn [sv1_comps].
+  intros data k. induction k as [|k IH]; intros i w h ids Hi Hl Hw Hh Hids; cbn [sv1_comps].
   - apply good_ret. lia.
   - eapply good_bind; [apply good_idx; lia|]. intros id _.
     eapply good_bind; [apply good_idx; lia|]. intros hv _.
     assert (Hwh : 0 <= w * h <= 65535 * 65535)
       by (split; [apply Z.mul_nonneg_nonneg; lia | apply Z.mul_le_mono_nonneg; lia]).
-    eapply good_bind; [apply good_alloc with (post := fun _ => True); [lia|rewrite maxAlloc_val; lia|unfold BIG; lia|exact I]|]. intros _ _.
+    eapply good_bind; [apply good_alloc with (post := fun _ => True); [lia|rewrite maxAlloc_val; lia|lia|exact I]|]. intros _ _.
     destruct (negb ((hv / 16 =? 1) && (hv mod 16 =? 1))); [apply good_err|].
     eapply good_weaken; [apply IH; try lia| |].
     + unfold zlen in *. rewrite app_length. simpl. lia.
@@ -273,45 +289,73 @@ Proof.
     + intros a Ha. cbv beta in Ha. lia.
 Qed.
 
-Lemma sv1_sof3_good : forall g st bs, bytes bs -> JInv st -> good g BIG (jpost bs) (sv1_parse_sof3 st bs).
+(* the sample arrays are requested while parsing SOF3: 8*w*h bytes per component *)
+Lemma sv1_sof3_good : forall st bs, bytes bs -> JInv st ->
+  good true (8 * sof_S (seg_data bs) + 65536)
+       (fun x => jpostR bs x /\ jframeless st = true /\ jframeless (fst x) = false /\ jframeS (fst x) = sof_S (seg_data bs) /\ zlen (j_ids (fst x)) = j_c (fst x))
+       (sv1_parse_sof3 st bs).
 Proof.
-  intros g st bs Hb (I1 & I2 & I3 & I4 & I5). unfold sv1_parse_sof3.
-  eapply good_bind.
-  { eapply good_weaken; [apply good_read_segment; exact Hb|unfold BIG; lia|intros a Ha; exact Ha]. }
-  intros [d rest] (Hd & Hrest & Hdl & Hlen). cbn [fst snd] in *.
-  destruct (zlen d <? 6); [apply good_err|].
+  intros st bs Hb (I1 & I2 & I3 & I4 & I5 & I6). unfold sv1_parse_sof3.
+  assert (HS0 : 0 <= sof_S (seg_data bs)).
+  { apply sof_S_nonneg. unfold seg_data. destruct bs as [|a [|b r']]; try constructor.
+    inversion Hb as [|? ? ? Hb']; subst. inversion Hb'; subst. apply bytes_firstn; auto. }
+  rseg Hb lia.
+  intros [d rest] (Hd & Hrest & Hdl & Hlen & Ed & Er). cbn [fst snd] in *.
+  destruct (zlen d <? 6) eqn:E6; [apply good_err|].
+  destruct (negb (j_w st =? 0) || negb (j_h st =? 0)) eqn:Efr; [apply good_err|].
   destruct ((znth d 0 0 <? 2) || (16 <? znth d 0 0)) eqn:Ep; [apply good_err|].
   pose proof (be16j_bound d 1 Hd). pose proof (be16j_bound d 3 Hd).
-  destruct ((be16j d 3 <=? 0) || (be16j d 1 <=? 0)); [apply good_err|].
+  destruct ((be16j d 3 <=? 0) || (be16j d 1 <=? 0)) eqn:Ewh; [apply good_err|].
   destruct (negb ((znth d 5 0 =? 1) || (znth d 5 0 =? 3))) eqn:Ec; [apply good_err|].
-  assert (Hc : 0 <= znth d 5 0 <= 3).
+  assert (Hc : 1 <= znth d 5 0 <= 3).
   { apply negb_false_iff in Ec. apply orb_true_iff in Ec. destruct Ec as [E|E]; apply Z.eqb_eq in E; lia. }
   apply orb_false_iff in Ep. destruct Ep as [E1 E2]. apply Z.ltb_ge in E1. apply Z.ltb_ge in E2.
+  apply orb_false_iff in Ewh. destruct Ewh as [W1 W2]. apply Z.leb_gt in W1. apply Z.leb_gt in W2.
+  apply orb_false_iff in Efr. destruct Efr as [F1 F2]. apply negb_false_iff in F1. apply negb_false_iff in F2.
+  assert (ES : sof_S (seg_data bs) = be16j d 3 * be16j d 1 * znth d 5 0).
+  { rewrite <- Ed. unfold sof_S, be16j. rewrite E6. reflexivity. }
+  assert (Hwh : 0 <= be16j d 3 * be16j d 1) by (apply Z.mul_nonneg_nonneg; lia).
+  assert (Hle : be16j d 3 * be16j d 1 <= sof_S (seg_data bs)) by (rewrite ES; nia).
   destruct (Z.ltb_spec (zlen d) (6 + znth d 5 0 * 3)); [apply good_err|].
-  eapply good_bind; [apply good_alloc with (post := fun _ => True); [lia|rewrite maxAlloc_val; lia|unfold BIG; lia|exact I]|]. intros _ _.
+  eapply good_bind; [apply good_alloc with (post := fun _ => True); [lia|rewrite maxAlloc_val; lia|lia|exact I]|]. intros _ _.
   eapply good_bind.
-  { apply sv1_comps_good; [lia|rewrite Z2Nat.id by lia; lia|lia|lia|reflexivity]. }
-  intros ids Hids. rewrite Z2Nat.id in Hids by lia.
-  apply good_ret. unfold jpost, JInv; simpl. repeat split; auto; lia.
+  { eapply good_weaken; [apply sv1_comps_good; [lia|rewrite Z2Nat.id by lia; lia|lia|lia|reflexivity]|lia|intros a Ha; exact Ha]. }
+  intros ids Hids. cbv beta in Hids. rewrite Z2Nat.id in Hids by lia.
+  apply good_ret. unfold jpostR, JInv, jframeless, jframeS; cbn [fst snd j_w j_h j_c j_prec j_ids].
+  split.
+  { repeat split; auto; try lia; try (destruct (Z.eqb_spec (be16j d 3) 0); [lia|]; cbn [andb]; discriminate). }
+  split; [rewrite F1, F2; reflexivity|]. split.
+  { destruct (Z.eqb_spec (be16j d 3) 0); [lia|]. reflexivity. }
+  split; [symmetry; exact ES|lia].
 Qed.
 
-Lemma sv1_scan_comps_good : forall g data ids k i, 0 <= i -> 1 + (i + Z.of_nat k) * 2 <= zlen data ->
-  good g BIG (fun _ => True) (sv1_scan_comps data ids k i).
+Lemma sv1_sof3_framed : forall st bs, bytes bs -> jframeless st = false ->
+  good true 65536 (fun _ => False) (sv1_parse_sof3 st bs).
 Proof.
-  intros g data ids k. induction k as [|k IH]; intros i Hi Hl; cbn [sv1_scan_comps]; [apply good_ret; exact I|].
+  intros st bs Hb Efl. unfold sv1_parse_sof3. rseg Hb lia.
+  intros [d rest] _. cbn [fst snd].
+  destruct (zlen d <? 6); [apply good_err|].
+  unfold jframeless in Efl. apply andb_false_iff in Efl.
+  destruct (negb (j_w st =? 0) || negb (j_h st =? 0)) eqn:E; [apply good_err|].
+  apply orb_false_iff in E. destruct E as [F1 F2]. apply negb_false_iff in F1. apply negb_false_iff in F2.
+  destruct Efl; congruence.
+Qed.
+
+Lemma sv1_scan_comps_good : forall data ids k i, 0 <= i -> 1 + (i + Z.of_nat k) * 2 <= zlen data ->
+  good true 65536 (fun _ => True) (sv1_scan_comps data ids k i).
+Proof.
+  intros data ids k. induction k as [|k IH]; intros i Hi Hl; cbn [sv1_scan_comps]; [apply good_ret; exact I|].
   eapply good_bind; [apply good_idx; lia|]. intros cs _.
   eapply good_bind; [apply good_idx; lia|]. intros td _.
   destruct (negb (existsb (fun id => id =? cs) ids)); [apply good_err|].
   destruct (4 <=? td / 16); [apply good_err|]. apply IH; lia.
 Qed.
 
-Lemma sv1_sos_good : forall g st bs, bytes bs -> JInv st ->
-  good g BIG (fun x => fst x = st /\ jpost bs x) (sv1_parse_sos st bs).
+Lemma sv1_sos_good : forall st bs, bytes bs -> JInv st ->
+  good true 65536 (fun x => fst x = st /\ jpostR bs x) (sv1_parse_sos st bs).
 Proof.
-  intros g st bs Hb HI. unfold sv1_parse_sos.
-  eapply good_bind.
-  { eapply good_weaken; [apply good_read_segment; exact Hb|unfold BIG; lia|intros a Ha; exact Ha]. }
-  intros [d rest] (Hd & Hrest & Hdl & Hlen). cbn [fst snd] in *.
+  intros st bs Hb HI. unfold sv1_parse_sos. rseg Hb lia.
+  intros [d rest] (Hd & Hrest & Hdl & Hlen & Ed & Er). cbn [fst snd] in *.
   destruct (Z.ltb_spec (zlen d) 1); [apply good_err|].
   eapply good_bind; [apply good_idx; lia|]. intros ns Hns.
   assert (Hnsb : 0 <= ns < 256) by (cbv beta in Hns; rewrite Hns; apply bytes_znth; auto).
@@ -319,87 +363,94 @@ Proof.
   eapply good_bind; [apply sv1_scan_comps_good; [lia|rewrite Z2Nat.id by lia; lia]|]. intros _ _.
   eapply good_bind; [apply good_idx; lia|]. intros pr _.
   destruct (negb (pr =? 1)); [apply good_err|].
-  apply good_ret. unfold jpost; cbn [fst snd]. auto.
+  apply good_ret. unfold jpostR; cbn [fst snd]. auto.
 Qed.
 
-Lemma sv1_out_alloc_good : forall g st, JInv st -> good g BIG (fun _ => True) (sv1_out_alloc st).
+Lemma sv1_out_alloc_good : forall st, JInv st -> good true (8 * jframeS st + 65536) (fun _ => True) (sv1_out_alloc st).
 Proof.
-  intros g st (I1 & I2 & I3 & I4 & I5). unfold sv1_out_alloc.
+  intros st (I1 & I2 & I3 & I4 & I5 & I6). unfold sv1_out_alloc, jframeS.
   pose proof (zlen_nonneg (j_ids st)). pose proof (prec_bps (j_prec st) I4).
   assert (Hwh : 0 <= j_w st * j_h st <= 65535 * 65535)
     by (split; [apply Z.mul_nonneg_nonneg; lia | apply Z.mul_le_mono_nonneg; lia]).
-  assert (0 <= j_w st * j_h st * zlen (j_ids st) <= 65535 * 65535 * 3)
-    by (split; [apply Z.mul_nonneg_nonneg; lia | apply Z.mul_le_mono_nonneg; lia]).
-  assert (0 <= j_w st * j_h st * zlen (j_ids st) * ((j_prec st + 7) / 8) <= 65535 * 65535 * 3 * 2)
-    by (split; [apply Z.mul_nonneg_nonneg; lia | apply Z.mul_le_mono_nonneg; lia]).
-  apply good_alloc; [lia|rewrite maxAlloc_val; lia|unfold BIG; lia|exact I].
+  assert (0 <= j_w st * j_h st * zlen (j_ids st) <= j_w st * j_h st * j_c st) by nia.
+  assert (j_w st * j_h st * j_c st <= 65535 * 65535 * 3) by (apply Z.mul_le_mono_nonneg; lia).
+  assert (0 <= j_w st * j_h st * zlen (j_ids st) * ((j_prec st + 7) / 8) <= j_w st * j_h st * j_c st * 2) by nia.
+  apply good_alloc; [lia|rewrite maxAlloc_val; lia|lia|exact I].
 Qed.
 
-Lemma sv1_loop_good : forall g fuel st bs, bytes bs -> JInv st -> (length bs < fuel)%nat ->
-  loopQ g (sv1_loop g fuel st bs).
+Lemma sv1_loop_good : forall fuel st bs Sx, bytes bs -> JInv st -> (length bs < fuel)%nat -> 0 <= Sx ->
+  (jframeless st = true -> frame_S 195 fuel bs <= Sx) -> (jframeless st = false -> jframeS st <= Sx) ->
+  aloopP Sx 8 bs (sv1_loop fuel st bs).
 Proof.
-  intros g fuel. induction fuel as [|k IH]; intros st bs Hb HI Hf; [lia|].
-  cbn [sv1_loop].
-  destruct (read_marker bs) as [[m r]| | |] eqn:EM; try apply loopQ_err.
+  induction fuel as [|k IH]; intros st bs Sx Hb HI Hf HS H1 H2; [lia|].
+  assert (HfS : jframeS st <= Sx).
+  { destruct (jframeless st) eqn:E; [rewrite (jframeless_S st E); exact HS|apply H2; reflexivity]. }
+  cbn [sv1_loop]. cbn [frame_S] in H1.
+  destruct (read_marker bs) as [[m r]| | |] eqn:EM; try apply aloopP_err.
   destruct (read_marker_ok _ _ _ EM) as [Hl Hbb]. destruct (Hbb Hb) as [Hr Hm].
-  destruct (m =? 195).
-  { eapply loopQ_bind; [apply sv1_sof3_good; auto|].
-    intros [st' rest] (P1 & P2 & P3). cbn [fst snd] in *. apply IH; auto. lia. }
-  destruct (m =? 196).
-  { eapply loopQ_bind; [apply parse_dht_good; auto|].
-    intros [[dc ac] rest] (P2 & P3). cbn [fst snd] in *. apply IH; [exact P2| |lia].
-    destruct HI as (I1 & I2 & I3 & I4 & I5). unfold JInv; simpl. auto. }
-  destruct (m =? 218).
-  { eapply loopQ_bind; [apply sv1_sos_good; auto|].
-    intros [st' rest] (E & P1 & P2 & P3). cbn [fst snd] in *. subst st'.
-    eapply loopQ_bind with (pa := fun _ => True) (B := 2 * zlen rest + 512).
+  assert (Hzl : zlen r <= zlen bs) by (unfold zlen; lia).
+  pose proof (zlen_nonneg bs) as Hz0.
+  destruct (m =? 195) eqn:E195.
+  { destruct (jframeless st) eqn:Efl.
+    - specialize (H1 eq_refl).
+      eapply aloopP_bind; [apply sv1_sof3_good; auto|nia|].
+      intros [st' rest] ((P1 & P2 & P3 & P4) & F0 & F1 & F2 & F3). cbn [fst snd] in *.
+      eapply aloopP_mono with (S' := Sx) (bs' := rest); [lia|lia|unfold zlen; lia|].
+      apply IH; auto; [lia| |].
+      + intros C. rewrite F1 in C. discriminate.
+      + intros _. rewrite F2. exact H1.
+    - (* a frame exists already: parseSOF3 returns an error before allocating *)
+      eapply aloopP_bind; [apply sv1_sof3_framed; auto|nia|]. intros a [].
+  }
+  destruct (m =? 196) eqn:E196.
+  { eapply aloopP_bind; [apply parse_dht_good; auto|nia|].
+    intros [[dc ac] rest] (P2 & P3 & P4). cbn [fst snd] in *.
+    eapply aloopP_mono with (S' := Sx) (bs' := rest); [lia|lia|unfold zlen; lia|].
+    apply IH; [exact P2| |lia|exact HS| |].
+    - destruct HI as (I1 & I2 & I3 & I4 & I5 & I6). unfold JInv; cbn [j_w j_h j_c j_prec j_ids]. tauto.
+    - unfold jframeless; cbn [j_w j_h]. intros C. rewrite P4.
+      apply Z.eqb_eq in E196. subst m. cbn in H1. apply H1. exact C.
+    - unfold jframeless, jframeS; cbn [j_w j_h j_c]. exact H2. }
+  destruct (m =? 218) eqn:E218.
+  { eapply aloopP_bind; [apply sv1_sos_good; auto|nia|].
+    intros [st' rest] (E & P1 & P2 & P3 & P4). cbn [fst snd] in *. subst st'.
+    eapply aloopP_bind with (pa := fun _ => True) (B := 2 * zlen rest + 512).
     { apply good_note; [lia|exact I]. }
-    intros _ _. eapply loopQ_bind; [apply sv1_out_alloc_good; auto|]. intros _ _. apply loopQ_ret. }
-  destruct (m =? 217).
-  { eapply loopQ_bind; [apply sv1_out_alloc_good; auto|]. intros _ _. apply loopQ_ret. }
-  destruct (has_length m).
-  { eapply loopQ_bind; [apply good_read_segment; exact Hr|].
-    intros [d rest] (P1 & P2 & P3 & P4). cbn [fst snd] in *. apply IH; auto. lia. }
+    { assert (zlen rest <= zlen bs) by (unfold zlen; lia). nia. }
+    intros _ _. eapply aloopP_bind; [apply sv1_out_alloc_good; auto|lia|intros _ _; apply aloopP_ret]. }
+  destruct (m =? 217) eqn:E217.
+  { eapply aloopP_bind; [apply sv1_out_alloc_good; auto|lia|intros _ _; apply aloopP_ret]. }
+  cbn [orb] in H1.
+  destruct (has_length m) eqn:EL.
+  { eapply aloopP_bind; [eapply good_weaken; [apply good_read_segment'; exact Hr|apply Z.le_refl|intros a Ha; exact Ha]|nia|].
+    intros [d rest] (P1 & P2 & P3 & P4 & P5 & P6). cbn [fst snd] in *.
+    eapply aloopP_mono with (S' := Sx) (bs' := rest); [lia|lia|unfold zlen; lia|].
+    apply IH; auto; [lia|]. intros C. rewrite P6. apply H1. exact C. }
+  eapply aloopP_mono with (S' := Sx) (bs' := r); [lia|lia|exact Hzl|].
   apply IH; auto. lia.
 Qed.
 
-Lemma sv1_decode_loopQ : forall g bs, bytes bs -> loopQ g (sv1_decode g (fuel_of bs) bs).
+Lemma sv1_decode_aloopP : forall bs, bytes bs -> aloopP (frame_declared 195 bs) 8 bs (sv1_decode (fuel_of bs) bs).
 Proof.
-  intros g bs Hb. unfold sv1_decode.
-  destruct (read_marker bs) as [[m r]| | |] eqn:EM; try apply loopQ_err.
+  intros bs Hb. unfold sv1_decode, frame_declared.
+  destruct (read_marker bs) as [[m r]| | |] eqn:EM; try apply aloopP_err.
   destruct (read_marker_ok _ _ _ EM) as [Hl Hbb]. destruct (Hbb Hb) as [Hr Hm].
-  destruct (m =? 216); [|apply loopQ_err].
-  apply sv1_loop_good; auto; [apply JInv0|unfold fuel_of; lia].
+  destruct (m =? 216); [|apply aloopP_err].
+  eapply aloopP_mono with (S' := frame_S 195 (fuel_of bs) r) (bs' := r); [lia|lia|unfold zlen; lia|].
+  apply sv1_loop_good; auto.
+  - apply JInv0.
+  - unfold fuel_of; lia.
+  - apply frame_S_nonneg; auto.
+  - intros _. lia.
+  - intros C. discriminate.
 Qed.
 
-Theorem sv1_decode_no_panic : forall bs, bytes bs -> fst (sv1_decode true (fuel_of bs) bs) <> Panic.
-Proof. intros bs Hb. apply (sv1_decode_loopQ true bs Hb). reflexivity. Qed.
-
-Theorem sv1_decode_panics_refuted : exists bs, bytes bs /\ fst (sv1_decode false (fuel_of bs) bs) = Panic.
-Proof.
-  exists jll_panic_witness. split; [|vm_compute; reflexivity].
-  unfold bytes, jll_panic_witness. repeat constructor; lia.
-Qed.
-
-Theorem sv1_decode_fuel : forall g bs, bytes bs -> fst (sv1_decode g (fuel_of bs) bs) <> OutOfFuel.
-Proof. intros g bs Hb. apply (sv1_decode_loopQ g bs Hb). Qed.
-
-(* SV1 allocates the sample arrays while parsing SOF3, and accepts any number of SOF3 segments:
-   relative to the header it finally decodes with, the requests are NOT bounded. Witness:
-   SOF3 65535x65535 (8*65535^2 bytes requested), then SOF3 1x1, then EOI. *)
-Definition sv1_alloc_statement : Prop := forall g bs, bytes bs ->
-  Forall (fun a => a <= 8 * Sres S_jhdr (fst (sv1_decode g (fuel_of bs) bs)) + 2 * zlen bs + 65536)
-         (snd (sv1_decode g (fuel_of bs) bs)).
-Definition sv1_two_sof_witness : list Z :=
-  [255; 216; 255; 195; 0; 11; 8; 255; 255; 255; 255; 1; 1; 17; 0;
-             255; 195; 0; 11; 8; 0; 1; 0; 1; 1; 1; 17; 0; 255; 217].
-Theorem sv1_alloc_refuted : ~ sv1_alloc_statement.
-Proof.
-  intros H. specialize (H true sv1_two_sof_witness).
-  assert (Hb : bytes sv1_two_sof_witness) by (unfold bytes, sv1_two_sof_witness; repeat constructor; lia).
-  specialize (H Hb). rewrite Forall_forall in H.
-  specialize (H (8 * (65535 * 65535))).
-  assert (Hin : In (8 * (65535 * 65535)) (snd (sv1_decode true (fuel_of sv1_two_sof_witness) sv1_two_sof_witness)))
-    by (vm_compute; tauto).
-  specialize (H Hin). vm_compute in H. apply H. reflexivity.
-Qed.
+Theorem sv1_decode_no_panic : forall bs, bytes bs -> fst (sv1_decode (fuel_of bs) bs) <> Panic.
+Proof. intros bs Hb. apply (sv1_decode_aloopP bs Hb). Qed.
+Theorem sv1_decode_fuel : forall bs, bytes bs -> fst (sv1_decode (fuel_of bs) bs) <> OutOfFuel.
+Proof. intros bs Hb. apply (sv1_decode_aloopP bs Hb). Qed.
+(* F44: SV1 allocates while parsing SOF3; since a second SOF3 is rejected the requests are bounded
+   by the unique frame header (historical witness: SOF3 65535x65535, SOF3 1x1, EOI) *)
+Theorem sv1_decode_alloc : forall bs, bytes bs ->
+  Forall (fun a => a <= 8 * frame_declared 195 bs + 2 * zlen bs + 65536) (snd (sv1_decode (fuel_of bs) bs)).
+Proof. intros bs Hb. apply (sv1_decode_aloopP bs Hb). Qed.
